@@ -2,7 +2,7 @@
    Statement skeletons (Model/Struct.v) mirror the suite transformers; the stage list and gates of minify() are re-read
    from the source on every run (Gen/Pipeline.v). *)
 From Coq Require Import String.
-From PM Require Import Model.Base Model.PipelineBase Gen.Pipeline Model.Struct Proofs.StructProofs.
+From PM Require Import Model.Base Model.PipelineBase Gen.Pipeline Model.Struct Proofs.StructProofs Model.ControlFlow Proofs.ControlFlowProofs.
 Open Scope bool_scope.
 
 (* --- the four "filter the suite" transformers: the output equals the input once the documented rewrite is erased from
@@ -60,6 +60,17 @@ Theorem C05_return_none_partial : forall k,
   ret_visit (Simple k) = match k with KReturn RNoneConst => Simple (KReturn RBare) | _ => Simple k end.
 Proof. exact ret_visit_simple. Qed.
 Print Assumptions C05_return_none_partial.
+
+(* RemoveExplicitReturnNone, semantically (Model/ControlFlow.v: atoms are events, branching is decided by an oracle, no
+   exceptions): calling a function whose body was rewritten (`return None` -> `return` at every depth, the bare `return`
+   at the very end dropped, `0` left in an otherwise empty body) produces the same events in the same order, returns the
+   same value and takes the same branches as calling the original - for every body and every oracle; fuel is only the
+   recursion bound of the interpreter *)
+Theorem C05_return_none_preserves_calls : forall body f o r,
+  (call f o body = Some r -> call (S f) o (ret_body body) = Some r) /\
+  (call f o (ret_body body) = Some r -> call (S (S f)) o body = Some r).
+Proof. intros. split; [apply ret_body_call_fwd | apply ret_body_call_bwd]. Qed.
+Print Assumptions C05_return_none_preserves_calls.
 
 (* --- each transformer is called under exactly its own switch (statement list of minify(), regenerated) --- *)
 #[local] Open Scope string_scope.
